@@ -541,8 +541,11 @@ func vpH_raw_ReadyAdvance_L() { vpReadyAdvance(StateLeader) }
 // two arbitrary vote responses are stepped.
 // ---------------------------------------------------------------------------
 
-func vpAsyncElection(async bool) {
+func vpAsyncElection(async bool, shapes ...int) {
 	ro := vpRawOptsFor(StateFollower, async)
+	if len(shapes) > 0 {
+		ro.o.shapes = shapes
+	}
 	ro.maxMsgs, ro.maxAfter = 0, 0
 	ro.o.unstSnap = false
 	ro.o.lu = 0
@@ -587,3 +590,10 @@ func vpAsyncElection(async bool) {
 
 func vpH_raw_Election_async() { vpAsyncElection(true) }
 func vpH_raw_Election_sync()  { vpAsyncElection(false) }
+
+// joint configurations, including one where this node votes only in the
+// outgoing half, and the single-voter cluster
+func vpH_raw_Election_async_joint() { vpAsyncElection(true, 2, 1, 6) }
+
+// only the configuration in which this node votes in the outgoing half alone
+func vpH_raw_Election_async_outgoing() { vpAsyncElection(true, 2) }
